@@ -36,7 +36,7 @@ theorem mem_sortSet {t : Key} {l : List Key} : t ∈ sortSet l ↔ t ∈ l := by
 /-- a NUL-free name followed by its terminator is read back as that name -/
 theorem loadAux_name (rej : Nat → Bool) (t : Key) (ht : (0 : UInt8) ∉ t) (rest cur : Bytes) :
     loadAux rej (t ++ 0 :: rest) cur =
-      if rej (cur ++ t).length then none else (loadAux rej rest []).map ((cur ++ t) :: ·) := by
+      if rej (cur.length + t.length) then none else (loadAux rej rest []).map ((cur.reverse ++ t) :: ·) := by
   induction t generalizing cur with
   | nil => simp [loadAux]
   | cons c t ih =>
@@ -44,7 +44,9 @@ theorem loadAux_name (rej : Nat → Bool) (t : Key) (ht : (0 : UInt8) ∉ t) (re
     have ht' : (0 : UInt8) ∉ t := fun h => ht (by simp [h])
     simp only [List.cons_append, loadAux, hc, if_false]
     rw [ih ht']
-    simp [List.append_assoc]
+    simp only [List.length_cons, List.reverse_cons, List.append_assoc, List.cons_append, List.nil_append]
+    have : cur.length + 1 + t.length = cur.length + (t.length + 1) := by omega
+    rw [this]
 
 theorem loadAux_trigBytes (rej : Nat → Bool) (ts : List Key)
     (h : ∀ t ∈ ts, (0 : UInt8) ∉ t ∧ rej t.length = false) : loadAux rej (trigBytes ts) [] = some ts := by
@@ -54,7 +56,7 @@ theorem loadAux_trigBytes (rej : Nat → Bool) (ts : List Key)
     have h1 := h t (by simp)
     have : trigBytes (t :: ts) = t ++ 0 :: trigBytes ts := by simp [trigBytes]
     rw [this, loadAux_name rej t h1.1]
-    simp only [List.nil_append, h1.2, Bool.false_eq_true, if_false]
+    simp only [List.length_nil, Nat.zero_add, List.reverse_nil, List.nil_append, h1.2, Bool.false_eq_true, if_false]
     rw [ih (fun t' ht' => h t' (by simp [ht']))]
     rfl
 
